@@ -135,7 +135,7 @@ def subst_word(text, frm, to):
 
 class Contract:
     def __init__(self, ret='res', requires=(), ensures=(), loops=(), prologue='', external_body=False,
-                 tag=None, decreases=None, opens=(), no_unwind=False, body_subst=(), assume_spec=False):
+                 tag=None, decreases=None, opens=(), no_unwind=False, body_subst=(), assume_spec=False, inserts=()):
         self.ret = ret
         self.requires = list(requires)
         self.ensures = list(ensures)      # strings; each becomes one tagged obligation
@@ -145,6 +145,7 @@ class Contract:
         self.tag = tag
         self.decreases = decreases
         self.body_subst = list(body_subst)  # recorded, exceptional textual rewrites (N-rules)
+        self.inserts = list(inserts)        # (anchor text, ghost text): ghost text inserted before the anchor (D2)
 
 
 def fn_header_parts(header):
@@ -354,6 +355,10 @@ def render_fn(fnitem, mode, contract, tparams=('T',), scalar='R', indent='    ')
         if a not in body:
             raise LookupError('body_subst anchor lost: %r' % a)
         body = body.replace(a, b)
+    for (anchor, ghost) in c.inserts:
+        if body.count(anchor) != 1:
+            raise LookupError('anchor-lost: insert anchor %r occurs %d times' % (anchor, body.count(anchor)))
+        body = body.replace(anchor, ghost + '\n' + anchor)
     if 'panicking::panic' in body:
         body, _ = rewrite_asserts(body)
     body = insert_loop_specs(body, c.loops)
